@@ -160,7 +160,7 @@ func (t *tracer) worker(th string, rng *rand.Rand, nops int, closer bool, lead i
 			time.Sleep((el/period+1)*period - el + time.Duration(rng.Intn(2000))*time.Microsecond)
 			// every delete and every ScheduleFullCompaction stops the engine's compaction loop and restarts its 1 s ticker:
 			// a window without them lets the loop tick, so that real compactions run while the others read, write and snapshot
-			if el := time.Since(t.start); el > 600*time.Millisecond && el < 2200*time.Millisecond && x >= 68 && x < 80 || x >= 87 && x < 94 && el > 600*time.Millisecond {
+			if el := time.Since(t.start); el > 600*time.Millisecond && el < 1750*time.Millisecond && x >= 68 && x < 80 || x >= 87 && x < 94 && el > 600*time.Millisecond {
 				x = rng.Intn(68)
 			}
 		}
